@@ -275,6 +275,29 @@ pub proof fn lemma_nomark_step(r0: Seq<Kind>, k: int, push: bool)
     lemma_count_marks_push(r0.subrange(0, r0.len() - k), Kind::Tuple);
 }
 
+/// concatenation of the per-opcode byte chunks of the body
+pub open spec fn flat(c: Seq<Seq<u8>>) -> Seq<u8>
+    decreases c.len()
+{
+    if c.len() == 0 { Seq::empty() } else { flat(c.drop_last()) + c.last() }
+}
+pub proof fn lemma_flat_push(c: Seq<Seq<u8>>, x: Seq<u8>)
+    ensures flat(c.push(x)) == flat(c) + x
+{
+    assert(c.push(x).drop_last() =~= c);
+}
+
+/// no opcode grows the stack by more than one item or the memo by more than one entry
+pub proof fn lemma_step_growth(op: OpcodeKind, a: RefArg, s: RefState)
+    requires ref_pre(op, a, s), op != OpcodeKind::Stop
+    ensures
+        ref_step(op, a, s).stack.len() <= s.stack.len() + 1,
+        ref_step(op, a, s).memo_len <= s.memo_len + 1,
+        ref_step(op, a, s).memo_len >= s.memo_len,
+{
+    lemma_top_mark_props(s.stack);
+}
+
 pub open spec fn count_marks(s: Seq<Kind>) -> int
     decreases s.len()
 {
